@@ -158,9 +158,9 @@ T_AT = '''
 def at(self, time=None):
     if time is not None:
         ti, dt = self.time.locate(time)
-        return SuperOperator(data=self.data[H_i, :, :, :, :])
+        return SuperOperator(data=self.data[H_i, :, :, :, :].copy())
     else:
-        return SuperOperator(data=self.data)
+        return SuperOperator(data=self.data.copy())
 '''
 
 T_APPLY = '''
